@@ -300,7 +300,9 @@ def make_case(rng, nthr, reps, flags, nops=(5, 11), want_err=None, shared=True):
     thr = []
     for t in range(nthr):
         thr.append(",".join(rand_ops(rng, ok, bad, set(ok), shared, rng.randrange(*nops), want_err)))
-    return "\t".join(["conc", str(nthr), str(reps), flags or "-", "0" if shared else "-1", str(len(docs))] +
+    okidx = set(i for i, d in enumerate(docs) if d[2])
+    expect_ok = sum(1 for t in thr for o in t.split(",") if o[0] == "P" and int(o[2:]) in okidx)
+    return "\t".join(["conc", str(nthr), str(reps), "%s:%d" % (flags or "-", expect_ok), "0" if shared else "-1", str(len(docs))] +
                      ["%s:%s" % (d[0], hexs(d[1])) for d in docs] + thr)
 
 
@@ -330,7 +332,7 @@ def witness_canon():
 # ------------------------------------------------------------------------------------------------
 # output parsing / judging
 # ------------------------------------------------------------------------------------------------
-_F = re.compile(r"^(ok|DIFF \S+) dict=(\d+):(\d+) leak=(\d+):(\d+) lock=(\d+):(\d+)(@\S+)? dangling=(\d+)( aloneleak=\d+)?"
+_F = re.compile(r"^(ok|DIFF \S+) dict=(\d+):(\d+) leak=(\d+):(\d+) lock=(\d+):(\d+)(@\S+)? dangling=(\d+) pok=(\d+)/(\d+)( aloneleak=\d+)?"
                 r"(?: left=[0-9a-f-]+)*(?: res=(\S+))?(?: tsan=(\S+))?$")
 
 CANON_PRINT = re.compile(r"^lyplg_type_print_(bits|binary|date_and_time|ipv4_address|ipv4_address_no_zone|ipv4_prefix|"
@@ -346,9 +348,10 @@ def parse_out(out):
         return None
     res = {"verdict": m.group(1), "dict": (int(m.group(2)), int(m.group(3))), "leak": (int(m.group(4)), int(m.group(5))),
            "lock": (int(m.group(6)), int(m.group(7))), "lock_where": m.group(8) or "", "dangling": int(m.group(9)),
-           "aloneleak": m.group(10), "res": m.group(11) or "", "tsan": []}
-    if m.group(12) and m.group(12) not in ("0", "?"):
-        for rep in m.group(12).split("|")[1:]:
+           "pok": (int(m.group(10)), int(m.group(11))),
+           "aloneleak": m.group(12), "res": m.group(13) or "", "tsan": []}
+    if m.group(14) and m.group(14) not in ("0", "?"):
+        for rep in m.group(14).split("|")[1:]:
             kind, _, stacks = rep.partition("~")
             st = [s.split("<") for s in stacks.split("/")]
             while len(st) < 2:
@@ -360,6 +363,16 @@ def parse_out(out):
 def classify_tsan(kind, s1, s2):
     """tag of one ThreadSanitizer report (function names of the two stacks, innermost first, wrappers removed);
     None = not one of the listed findings"""
+    def rec_insert(s):
+        # the insertion of a new thread's error record (may resize = free the arena)
+        return "ly_err_new_rec" in s and ("lyht_resize" in s or "lyht_insert" in s)
+
+    def rec_use(s):
+        # use of a record pointer after ly_err_get_rec()/ly_err_new_rec() dropped the lock
+        return bool(s) and s[0] in ERR_USERS
+    if (rec_insert(s1) and rec_use(s2)) or (rec_insert(s2) and rec_use(s1)):
+        return "err-rec-resize"
+
     def lazy_store(s):
         # dict_insert() writing  *str_p  (= value->_canonical) for a lazily caching print callback
         return len(s) >= 3 and s[0] == "dict_insert" and s[1] in ("lydict_insert_zc", "lydict_insert") and \
@@ -384,7 +397,7 @@ def classify_tsan(kind, s1, s2):
 
     def creator(s):
         # the thread that allocated / filled the bytes of a string that is (or becomes) a dictionary string
-        return bool(s) and s[0] in STRING_MAKERS
+        return bool(s) and s[0] in STRING_MAKERS and not any(f.startswith(("lyht_", "_lyht")) for f in s)
 
     def shared_reader(s):
         # an operation of the driver on the SHARED tree that is not inside any dictionary / hash table function
@@ -394,19 +407,15 @@ def classify_tsan(kind, s1, s2):
     if (lazy_cb(s1) or lazy_cb(s2)) and not (table_top(s1) and table_top(s2)):
         return "canon-lazy-cache"
     # the bytes of the cached string are read by a thread that saw value->_canonical != NULL without any
-    # synchronisation with the thread that published the pointer (which did synchronise with the creator of the string)
-    if (creator(s1) and shared_reader(s2)) or (creator(s2) and shared_reader(s1)):
+    # synchronisation with the thread that published the pointer (which did synchronise with the creator of the string):
+    # a lock-free reader inside an operation on the shared tree against an access of another thread that is creating a
+    # string (allocation, copy, sprintf, the terminator written by dict_insert) outside any operation on the shared tree.
+    # Memory that both can reach is a dictionary string (or schema / context data, which private work never writes; the
+    # same operations run in the warmed cases, where nothing at all may be reported)
+    if (shared_reader(s1) and (creator(s2) or "shared_op" not in s2)) or \
+            (shared_reader(s2) and (creator(s1) or "shared_op" not in s1)):
         return "canon-lazy-cache"
 
-    def rec_insert(s):
-        # the insertion of a new thread's error record (may resize = free the arena)
-        return "ly_err_new_rec" in s and ("lyht_resize" in s or "lyht_insert" in s)
-
-    def rec_use(s):
-        # use of a record pointer after ly_err_get_rec()/ly_err_new_rec() dropped the lock
-        return bool(s) and s[0] in ERR_USERS
-    if (rec_insert(s1) and rec_use(s2)) or (rec_insert(s2) and rec_use(s1)):
-        return "err-rec-resize"
     return None
 
 
@@ -432,7 +441,6 @@ def scenario(rng, kind):
             calls[t].append(rng.choice(["L", "E"]))
         pre = []
         idx = [0] * nthr
-        pend = [(t, k) for t in range(5) for k in range(len(calls[t]))]
         # program order respecting random interleaving of the first five threads
         while any(idx[t] < len(calls[t]) for t in range(5)):
             t = rng.choice([t for t in range(5) if idx[t] < len(calls[t])])
@@ -620,18 +628,29 @@ class ConcSerial:
     timeout = 300
 
     def gen(self, rng, tier, scale=1.0):
-        L = [witness_err_rec(), witness_canon()]
         n = int((40 if tier == "thorough" else 4) * scale) or 1
         reps = 3
+        clean, lazy, errs = [], [], []
         for _ in range(6 * n):          # no listed race can occur: shared tree warm, error records primed
-            L.append(make_case(rng, rng.randrange(2, 9), reps, "wp"))
-        for _ in range(4 * n):          # lazily cached canonical strings of the shared tree are generated by the threads
-            L.append(make_case(rng, rng.randrange(2, 6), reps, "p"))
-        for _ in range(3 * n):          # first errors of >= 6 threads while others read theirs
-            L.append(make_case(rng, rng.randrange(6, 9), reps, "w", want_err=True))
+            clean.append(make_case(rng, rng.randrange(2, 9), reps, "wp"))
         for _ in range(2 * n):          # no shared tree: LYB hash cache, dictionary and schema reads only
-            L.append(make_case(rng, rng.randrange(3, 9), reps, "p", shared=False))
-        return L
+            clean.append(make_case(rng, rng.randrange(3, 9), reps, "p", shared=False))
+        for _ in range(4 * n):          # lazily cached canonical strings of the shared tree are generated by the threads
+            lazy.append(make_case(rng, rng.randrange(2, 6), reps, "p"))
+        for _ in range(3 * n):          # first errors of >= 6 threads while others read theirs
+            errs.append(make_case(rng, rng.randrange(6, 9), reps, "w", want_err=True))
+        # ThreadSanitizer reports one pair of stacks once per process: in every process (shard) the cases in which nothing
+        # may be reported run first, so that a new race is not first seen (and attributed) in a case where a listed race
+        # with similar stacks is possible
+        buckets = [[] for _ in range(self.shards)]
+        for group in (clean, lazy, errs, [witness_err_rec(), witness_canon()]):
+            for k, l in enumerate(group):
+                buckets[k % self.shards].append(l)
+        size = max(len(b) for b in buckets)
+        for b in buckets:               # equal chunk sizes, as run_sharded cuts the list into consecutive pieces
+            while len(b) < size:
+                b.append(make_case(rng, rng.randrange(2, 6), reps, "wp"))
+        return [l for b in buckets for l in b]
 
     def judge(self, line, out):
         f = line.split("\t")
@@ -650,6 +669,9 @@ class ConcSerial:
         r = parse_out(out)
         if r is None:
             return (None, "unexpected driver output: %s" % out[:200])
+        if ":" in flags and r["pok"][0] < int(flags.split(":")[1]):
+            return (None, "a document that is valid by construction was rejected or failed in the pipeline when run alone "
+                          "(%d good parse operations, %s expected)" % (r["pok"][0], flags.split(":")[1]))
         if r["aloneleak"]:
             return (None, "a workload run alone leaves strings in the dictionary:%s" % r["aloneleak"])
         if r["lock"][1]:
@@ -675,8 +697,8 @@ class ConcSerial:
                 found = found or ("err-rec-resize", "dictionary unbalanced after the error table race: %s" % out[:120])
             else:
                 return (None, "dictionary not back to the post-setup state: %s" % out[:200])
-        if r["dangling"]:
-            found = found or ("err-rec-resize", "error table arena reallocated between ly_err_get_rec() and the dereference")
+        # r["dangling"] (the arena was reallocated while a thread was stopped behind ly_err_get_rec) is informational: the
+        # driver zeroes and keeps the freed arena, so a use of the dangling pointer shows as a lost error record (DIFF)
         if found:
             return found
         for tag, t in tags:
